@@ -20,6 +20,17 @@ def frames_of(ep: qos.Episode, i: int) -> tuple[str, str, str | None]:
     return q, q.replace(qos.HGI, qos.GWY), r
 
 
+def notice_time(ep: qos.Episode, res: qos.Result, i: int, t0: float) -> float:
+    imp = sorted((k for k, c in enumerate(ep.calls) if qos.HGI not in qos.POOL[c["cmd"]][0][:17] and k in res.started), key=lambda k: (res.started[k], res.seq.get(k, k)))
+    notices = [(t, f) for (t, f), call in zip(res.writes, res.write_calls) if call is None and " 7FFF " in f]
+    simple = (not ep.alerts_lost and len(notices) == len(imp)
+              and not any(kind in ("conn_lost", "conn_lost_made", "pause", "pause_resume") for _t, kind, _a in ep.events))
+    if not simple or i not in imp:
+        return 20.0
+    t_notice = notices[imp.index(i)][0]
+    return max(0.0, t_notice + 0.02 - t0) + 0.05
+
+
 def score_c07(chk: Check, ep: qos.Episode, res: qos.Result) -> None:
     for i, c in enumerate(ep.calls):
         q, echo, reply = frames_of(ep, i)
@@ -30,7 +41,9 @@ def score_c07(chk: Check, ep: qos.Episode, res: qos.Result) -> None:
         t0 = res.started.get(i, c["t"])
         bound = min(c["timeout"], 20.0)
         if qos.HGI not in q[:17]:
-            bound += 20.0       # "plus only the time taken by a mandatory impersonation notice sent ahead of it" (itself a send)
+            # "plus only the time taken by a mandatory impersonation notice sent ahead of it" (itself a send, of up to 20 s); when
+            # every notice of the episode went out once and was echoed, the time it took is known exactly: from the call to its echo
+            bound += notice_time(ep, res, i, t0)
         if t_done - t0 > bound + EPS:
             chk.violation("c07.late", f"call {i} finished after {t_done - t0:.6f}s, timeout {bound}", {"episode": ep.to_json()})
         if kind == "ok":
@@ -201,6 +214,36 @@ def run_prop(chk: Check, which: str) -> None:
                         chk.evaluations += 1
                         chk.nontrivial.add(json.dumps(ep.to_json(), sort_keys=True))
                         score_c07(chk, ep, res)
+        # two devices are impersonated at once: a command is in flight (stuck for a while), plain commands of the lowest priority are
+        # queued, the first impersonated command too (lowest priority); the second caller asks for HIGH priority with a short timeout.
+        # Its notice (DEFAULT priority) and its command overtake what is queued at a lower priority: it is answered within its timeout
+        # plus the time its own notice took - which starts when the command in flight at the time of the call is done
+        for t2 in (2.0, 1.0, 3.0):
+            for n_lost in (1, 2):
+                for mode in (None, False):
+                    ep = qos.Episode()
+                    ep.mode = mode
+                    ep.calls = [{"t": 0.0, "cmd": 0, "prio": 0, "max_retries": 3, "timeout": 20.0, "wfr": None}]
+                    ep.calls += [{"t": 0.001 * (k + 1), "cmd": qos.N_POOL_CLASSIC + k, "prio": 4, "max_retries": 3, "timeout": 20.0, "wfr": None} for k in range(6)]
+                    ep.calls += [{"t": 0.01, "cmd": 9, "prio": 4, "max_retries": 3, "timeout": 20.0, "wfr": None},
+                                 {"t": 0.02, "cmd": 10, "prio": -2, "max_retries": 3, "timeout": t2, "wfr": None}]
+                    for c in ep.calls:
+                        for nn in range(1, 8):
+                            lost = (c["cmd"] == 0 and nn <= n_lost) or (c["cmd"] >= qos.N_POOL_CLASSIC and nn == 1)
+                            ep.tx[(c["cmd"], nn)] = {"echo": None if lost else 0.02, "reply": None if lost else 0.05, "dup": False, "fail": False}
+                    res = qos.run_episode(ep)
+                    chk.evaluations += 1
+                    chk.nontrivial.add(json.dumps(ep.to_json(), sort_keys=True))
+                    score_c07(chk, ep, res)
+                    last = len(ep.calls) - 1
+                    if 0 in res.outcomes and last in res.outcomes:
+                        t_free = res.outcomes[0][0]
+                        t_done = res.outcomes[last][0]
+                        allowed = max(t_free, res.started[last]) + 0.3 + min(t2, 20.0)     # (two notices and an echo: 3 x 0.04 s, rounded up)
+                        if t_done > allowed:
+                            chk.violation("c07.late.behind_lower_priority", f"the HIGH-priority impersonated send (timeout {t2}) called at {res.started[last]:.3f} was answered at "
+                                          f"{t_done:.3f}; the command in flight at the call was done at {t_free:.3f}, everything else queued was of a lower priority",
+                                          {"episode": ep.to_json()})
         # every foreign packet of the list while each command waits for its echo (0.01 s) / for its reply (0.1 s)
         for cmd in range(qos.N_PLAIN):
             for k in range(len(qos.FOREIGN)):
